@@ -55,7 +55,12 @@ def run(ctx):
                           "s05_wfcb_childfail_wfcfail",
                           {"nodes": [{"k": "wfcb", "caught": True}, {"k": "step"}, {"k": "wait"}, {"k": "step"}]},
                           {"nodes": [{"k": "child", "caught": True, "body": [{"k": "step"}, {"k": "invoke"}]}, {"k": "step"}, {"k": "wait"}]},
-                          {"nodes": [{"k": "child", "caught": True, "body": [{"k": "cb", "between": []}]}, {"k": "step"}]}],
+                          {"nodes": [{"k": "child", "caught": True, "body": [{"k": "cb", "between": []}]}, {"k": "step"}]},
+                          # a step that is retried twice IN PROCESS (a slow sibling keeps the invocation alive): every RETRY is durable
+                          # before the branch parks on it, whenever the sibling ends
+                          {"nodes": [{"k": "par", "branches": [[{"k": "step", "fail": 2, "max": 3}, {"k": "step"}], [{"k": "step", "dur": 1.5}]]}, {"k": "step"}]},
+                          {"nodes": [{"k": "par", "branches": [[{"k": "step", "fail": 2, "max": 3}, {"k": "step"}], [{"k": "step", "dur": 2.5}]]}, {"k": "step"}]},
+                          {"nodes": [{"k": "map", "branches": [[{"k": "step", "fail": 2, "max": 3}], [{"k": "step", "dur": 8.0}]]}, {"k": "step"}]}],
                 oracle_fns=[oracles.c03, oracles.c06, oracles.c07],
                 scen_kw={"crash": 0.3, "faults": 0.5, "pct": 0.6, "ext_fail": 0.7},
                 post=slow_api,
